@@ -106,9 +106,26 @@ def run(rng, tier, model_ok):
         add("round(%s)" % arg, "round", x, None, u)
         n = rng.randint(-6, 6)
         add("round(%s,%s%d%s)" % (arg, rng.choice(["", " "]), n, sp), "round", x, n, u)
+    # exact ties at the digit that is rounded to, of both signs, and their neighbours one part in a million away
+    for n in range(-3, 5):
+        for mth in (-7, -3, -1, 0, 1, 2, 12):
+            b = Fraction(2 * mth + 1, 2) / Fraction(10) ** n
+            for x in (b, b + b / 10 ** 6, b - b / 10 ** 6):
+                u = rng.choice(["", " m"])
+                t = dec_text(x)
+                arg = t + u if not t.startswith("(") else t
+                add("round(%s, %d)" % (arg, n), "round", x, n, u if not t.startswith("(") else "")
     def must_fail(reply):
         return None if pipeline.is_error(reply) else {"why": "a wrong number of arguments was accepted"}
-    for q in ["floor()", "ceil()", "round()", "floor(1, 2)", "ceil(1.5, 2)", "round(1, 2, 3)", "floor(1 m, 2, 3)", "round(1.5, 1, 1, 1)", "ceil( )"]:
+    arity_qs = ["ceil( )"]
+    argpool = ["1", "1.5", "2 m", "0", "1.2345", "(1 + 1)", "3"]
+    for fn, okn in (("floor", {1}), ("ceil", {1}), ("round", {1, 2}), ("sin", {1}), ("cos", {1})):
+        for k in range(0, 6):
+            if k in okn:
+                continue
+            for _ in range(3):
+                arity_qs.append("%s(%s)" % (fn, ", ".join(rng.choice(argpool) for _ in range(k))))
+    for q in arity_qs:
         items.append((q, must_fail))
         meta.append(("arity", None, ""))
     corpus = vlib.load_corpus("C10")
